@@ -172,7 +172,33 @@ func (s *WSeg) Exp() *model.Obs {
 	return s.exp
 }
 
+// Impl is one implementation of the segment format: the code under test
+// (/repo) or the frozen reference copy (/verif/refice).
+type Impl struct {
+	Name  string
+	New   func(docs []segment.Document, norm func(string, int) float32, mode uint32) (segment.Segment, uint64, error)
+	Load  func(d *segment.Data) (segment.Segment, error)
+	Merge func(md *MergeDef, mode uint32, segs []segment.Segment, drops []*roaring.Bitmap, w *SimWriter, closeCh chan struct{}) ([][]uint64, int64, error)
+}
+
+// IceImpl is the code under test.
+var IceImpl = &Impl{
+	Name: "current",
+	New:  ice.VerifNew,
+	Load: ice.Load,
+	Merge: func(md *MergeDef, mode uint32, segs []segment.Segment, drops []*roaring.Bitmap, wr *SimWriter, closeCh chan struct{}) ([][]uint64, int64, error) {
+		if md.Public {
+			m := ice.Merge(segs, drops, md.Buf)
+			ret, err := m.WriteTo(wr, closeCh)
+			return m.DocumentNumbers(), ret, err
+		}
+		nums, n, err := ice.VerifMerge(segs, drops, wr, mode, closeCh)
+		return nums, int64(n), err
+	},
+}
+
 type World struct {
+	Impl  *Impl
 	Def   *WorldDef
 	DV    map[string]bool
 	Segs  []*WSeg
@@ -211,13 +237,18 @@ func Persist(seg segment.Segment, sched *Sched) (data []byte, ret int64, pi *Pan
 
 // LoadView loads an image as a mem or file view.
 func LoadView(img []byte, store string, sched *Sched) (seg segment.Segment, mem []byte, ra *SimReaderAt, pi *PanicInfo, err error) {
+	return LoadViewWith(IceImpl, img, store, sched)
+}
+
+// LoadViewWith loads an image with the given implementation's reader.
+func LoadViewWith(impl *Impl, img []byte, store string, sched *Sched) (seg segment.Segment, mem []byte, ra *SimReaderAt, pi *PanicInfo, err error) {
 	pi = Guard(func() {
 		if store == StoreFile {
 			ra = NewSimReaderAt(img, sched)
-			seg, err = ice.Load(NewDataReaderAt(ra, len(img)))
+			seg, err = impl.Load(NewDataReaderAt(ra, len(img)))
 		} else {
 			mem = append([]byte(nil), img...)
-			seg, err = ice.Load(segment.NewDataBytes(mem))
+			seg, err = impl.Load(segment.NewDataBytes(mem))
 		}
 	})
 	return
@@ -234,7 +265,12 @@ func BuildWorld(def *WorldDef, sched *Sched) (*World, *Fail) {
 // decides the order in which a merge's results are examined, i.e. the
 // attribution when several things are wrong with the same merge).
 func BuildWorldFor(prop string, def *WorldDef, sched *Sched) (*World, *Fail) {
-	w := &World{Def: def, DV: map[string]bool{}, Sched: sched, Prop: prop}
+	return BuildWorldWith(IceImpl, prop, def, sched)
+}
+
+// BuildWorldWith builds the world with the given implementation.
+func BuildWorldWith(impl *Impl, prop string, def *WorldDef, sched *Sched) (*World, *Fail) {
+	w := &World{Impl: impl, Def: def, DV: map[string]bool{}, Sched: sched, Prop: prop}
 	for _, n := range def.DV {
 		w.DV[n] = true
 	}
@@ -253,9 +289,7 @@ func BuildWorldFor(prop string, def *WorldDef, sched *Sched) (*World, *Fail) {
 			return nil, fail
 		}
 		ws.dv = w.DV
-		if seg, ok := ws.Seg.(*ice.Segment); ok {
-			sched.WatchMutexes(seg)
-		}
+		sched.WatchMutexes(ws.Seg)
 		w.Segs = append(w.Segs, ws)
 	}
 	return w, nil
@@ -271,7 +305,7 @@ func (w *World) buildNew(i int, sd *SegDef) (*WSeg, *Fail) {
 	var seg segment.Segment
 	var err error
 	pi := Guard(func() {
-		seg, ws.NewSize, err = ice.VerifNew(ToSegmentDocs(docs, w.DV, w.Sched), model.NormFn(sd.Norm), sd.Mode)
+		seg, ws.NewSize, err = w.Impl.New(ToSegmentDocs(docs, w.DV, w.Sched), model.NormFn(sd.Norm), sd.Mode)
 	})
 	if pi != nil {
 		return nil, &Fail{Prop: "C01", Oracle: "world", Kind: "panic", Site: pi.Site, Detail: fmt.Sprintf("New(seg %d, %d docs, mode %d) panicked: %s", i, len(docs), sd.Mode, pi.Msg)}
@@ -288,7 +322,7 @@ func (w *World) buildNew(i int, sd *SegDef) (*WSeg, *Fail) {
 	}
 	if sd.Store == StoreMem || sd.Store == StoreFile {
 		var lerr error
-		ws.Seg, ws.Mem, ws.RA, pi, lerr = LoadView(ws.Bytes, sd.Store, w.Sched)
+		ws.Seg, ws.Mem, ws.RA, pi, lerr = LoadViewWith(w.Impl, ws.Bytes, sd.Store, w.Sched)
 		if pi != nil || lerr != nil {
 			return nil, apiFail("C04", "world", "Load(built image)", pi, lerr)
 		}
@@ -305,17 +339,12 @@ func apiFail(prop, oracle, site string, pi *PanicInfo, err error) *Fail {
 
 // RunMerge executes a merge of the given inputs into wr.
 func RunMerge(md *MergeDef, mode uint32, segs []segment.Segment, drops []*roaring.Bitmap, wr *SimWriter, closeCh chan struct{}) (nums [][]uint64, ret int64, pi *PanicInfo, err error) {
-	pi = Guard(func() {
-		if md.Public {
-			m := ice.Merge(segs, drops, md.Buf)
-			ret, err = m.WriteTo(wr, closeCh)
-			nums = m.DocumentNumbers()
-		} else {
-			var n uint64
-			nums, n, err = ice.VerifMerge(segs, drops, wr, mode, closeCh)
-			ret = int64(n)
-		}
-	})
+	return RunMergeWith(IceImpl, md, mode, segs, drops, wr, closeCh)
+}
+
+// RunMergeWith executes a merge with the given implementation.
+func RunMergeWith(impl *Impl, md *MergeDef, mode uint32, segs []segment.Segment, drops []*roaring.Bitmap, wr *SimWriter, closeCh chan struct{}) (nums [][]uint64, ret int64, pi *PanicInfo, err error) {
+	pi = Guard(func() { nums, ret, err = impl.Merge(md, mode, segs, drops, wr, closeCh) })
 	return
 }
 
@@ -371,7 +400,7 @@ func (w *World) buildMerge(i int, sd *SegDef) (*WSeg, *Fail) {
 	wr := NewSimWriter(w.Sched)
 	var pi *PanicInfo
 	var err error
-	ws.DocNums, ws.MergeRet, pi, err = RunMerge(md, sd.Mode, segs, ws.Drops, wr, nil)
+	ws.DocNums, ws.MergeRet, pi, err = RunMergeWith(w.Impl, md, sd.Mode, segs, ws.Drops, wr, nil)
 	if pi != nil || err != nil {
 		return nil, apiFail("C02", "world", fmt.Sprintf("merge(seg %d of %d inputs)", i, len(segs)), pi, err)
 	}
@@ -385,9 +414,17 @@ func (w *World) buildMerge(i int, sd *SegDef) (*WSeg, *Fail) {
 		store = StoreMem
 	}
 	var lerr error
-	ws.Seg, ws.Mem, ws.RA, pi, lerr = LoadView(ws.Bytes, store, w.Sched)
+	ws.Seg, ws.Mem, ws.RA, pi, lerr = LoadViewWith(w.Impl, ws.Bytes, store, w.Sched)
 	if pi != nil || lerr != nil {
 		return nil, apiFail("C04", "world", fmt.Sprintf("Load(merge output, %d survivors)", len(ws.Docs)), pi, lerr)
 	}
 	return ws, nil
+}
+
+// MergeModeOrBuild is the chunk mode a world segment was written with.
+func MergeModeOrBuild(ws *WSeg) uint32 {
+	if ws.Kind == model.Built {
+		return ws.Def.Mode
+	}
+	return MergeMode(ws.Def)
 }
